@@ -309,8 +309,8 @@ func cmdCheck(prop, tier string) int {
 	os.MkdirAll(filepath.Join(verifDir, "replays"), 0o755)
 	minBudget := time.Duration(envInt("VERIF_MINIMISE_S", 60)) * time.Second
 	for i, sig := range sigs {
-		if i >= 5 {
-			fmt.Printf("  (%d more distinct signatures not minimised)\n", len(sigs)-5)
+		if i >= envInt("VERIF_MAX_REPORT", 5) {
+			fmt.Printf("  (%d more distinct signatures not minimised)\n", len(sigs)-i)
 			break
 		}
 		r := bySig[sig]
